@@ -216,6 +216,16 @@ func (p *Prog) effectFreeCall(fr *Frame, call *ast.CallExpr) bool {
 	return false
 }
 
+// isPoolPut: (*sync.Pool).Put - returning memory to a pool is tracked (ownership), unlike the other sync calls.
+func (p *Prog) isPoolPut(fr *Frame, call *ast.CallExpr) bool {
+	sel, ok := call.Fun.(*ast.SelectorExpr)
+	if !ok {
+		return false
+	}
+	fn, ok := fr.pkg.TypesInfo.Uses[sel.Sel].(*types.Func)
+	return ok && fn.FullName() == "(*sync.Pool).Put"
+}
+
 // ---------- boxing pre-scan
 
 // prescanBoxes marks array variables (locals and pointees of *[N]T parameters) that are sliced.
@@ -515,8 +525,29 @@ func (v *Verifier) intrinsic(fr *Frame, st *State, full string, fn *types.Func, 
 		sh := v.eng.shapeOf(fn.Type().(*types.Signature).Results().At(0).Type())
 		return OpaqueVal{Sh: sh, ID: c.Fresh("pool$get", IntSort), Nil: c.False()}, true
 	case "(*sync.Pool).Put":
-		// returning an object to a pool has no effect on the model (ownership is not tracked)
+		// Ownership: the object handed to the pool, and the arrays its slice fields refer to, belong to
+		// the pool from now on (ghost flag "released"); any later use of them by this function or its
+		// callers is an obligation failure, and contracts can speak about it (released(x)).
 		use()
+		if len(x.Args) == 1 && v.eng.IntIdx() {
+			if pv, ok := v.eval(fr, st, x.Args[0]).(PtrVal); ok && pv.Loc == nil {
+				h := v.ghostHeap(st, gReleased)
+				h = c.Store(h, pv.Ref, c.True())
+				if pt, ok := v.typeOf(fr, x.Args[0]).Underlying().(*types.Pointer); ok {
+					if stt, ok := pt.Elem().Underlying().(*types.Struct); ok {
+						obj := v.eng.load(st, v.derefLoc(fr, st, pv, pos))
+						if sv, ok := obj.(StructVal); ok {
+							for i := 0; i < stt.NumFields() && i < len(sv.F); i++ {
+								if fsl, ok := sv.F[i].(SliceVal); ok {
+									h = c.Store(h, fsl.Ref, c.True())
+								}
+							}
+						}
+					}
+				}
+				v.setGhostHeap(st, gReleased, h)
+			}
+		}
 		return TupleVal{}, true
 	case "encoding/binary.ReadUvarint":
 		// reads 1..10 bytes from a byte reader; the decoded value is not modelled (fresh)
